@@ -29,7 +29,13 @@ fn arithmetic<T: Elem>(case: &mut Case) -> Result<(), String> {
     let b: Vec<T> = vgen(&mut case.src, n);
     let s = T::small(&mut case.src);
     let snz = T::small_nz(&mut case.src);
-    let (va, vb) = (Vector::create(a.clone()), Vector::create(b.clone()));
+    let spare = |v: &Vec<T>, extra: usize| -> Vec<T> {
+        let mut w = Vec::with_capacity(v.len() + extra);
+        w.extend_from_slice(v);
+        w
+    };
+    let (ea, eb) = (case.src.usize_below(3) * 5, case.src.usize_below(3) * 5);
+    let (va, vb) = (Vector::create(spare(&a, ea)), Vector::create(spare(&b, eb)));
     case.class(format!("arithmetic {} n{}", T::NAME, if n == 0 { "=0" } else if n < 3 { "<3" } else { ">=3" }));
     case.describe(|| format!("arithmetic {} a={:?} b={:?} s={:?}", T::NAME, a, b, s));
     let z2 = |f: &dyn Fn(T, T) -> T| -> Vec<T> { a.iter().zip(&b).map(|(x, y)| f(*x, *y)).collect() };
@@ -74,6 +80,16 @@ fn arithmetic<T: Elem>(case: &mut Case) -> Result<(), String> {
     veq(&t, &z1(&|x| x * s), "a *= s")?;
     veq(&va, &a, "operand a after by-reference operators / clone mutations")?;
     veq(&vb, &b, "operand b after by-reference operators")?;
+    // the same object on both sides
+    veq(&(&va + &va), &a.iter().map(|x| *x + *x).collect::<Vec<T>>(), "&a + &a")?;
+    veq(&(&va - &va), &a.iter().map(|x| *x - *x).collect::<Vec<T>>(), "&a - &a")?;
+    {
+        let dd = va.dot(&va);
+        let e = a.iter().fold(T::from_int(0), |acc, x| acc + *x * *x);
+        if !(dd == e) {
+            return Err(format!("a.dot(&a) = {:?}, expected {:?}", dd, e));
+        }
+    }
     // dot
     let d = va.dot(&vb);
     let e = a.iter().zip(&b).fold(T::from_int(0), |acc, (x, y)| acc + *x * *y);
